@@ -9,7 +9,7 @@
 (* EventsBuffer.tla.                                                                             *)
 EXTENDS Integers, Sequences, FiniteSets, TLC, Json
 
-CONSTANTS MaxN, MaxParents, MaxDup, Limits, Sizes, BigSize, FailKinds
+CONSTANTS MaxN, MaxParents, MaxDup, Limits, Sizes, BigSize, FailKinds, MaxExt
 VARIABLES n, par, order, fail, limit, size, big
 
 svars == <<n, par, order, fail, limit, size, big>>
@@ -28,15 +28,22 @@ Init == /\ n \in 1..MaxN
         /\ big \in IF BigSize = 0 THEN {0} ELSE 0..n        \* at most one event (0 = none) has the big size
 
 Count(e) == Cardinality({i \in 1..Len(order) : order[i] = e})
+Pushes == {i \in 1..Len(order) : order[i] > 0}
 Push(e) == /\ e \in 1..n
            /\ \/ Count(e) = 0
-              \/ Count(e) = 1 /\ Len(order) - Cardinality({order[i] : i \in 1..Len(order)}) < MaxDup
+              \/ Count(e) = 1 /\ Cardinality(Pushes) - Cardinality({order[i] : i \in Pushes}) < MaxDup
            /\ order' = Append(order, e)
            /\ UNCHANGED <<n, par, fail, limit, size, big>>
-Next == \E e \in 1..n : Push(e)
+\* the application connects event e by another path (recorded as -e in the order); the harness does it only when e's
+\* parents are connected at that moment
+NExt == Cardinality({i \in 1..Len(order) : order[i] < 0})
+Ext(e) == /\ e \in 1..n /\ NExt < MaxExt /\ \A i \in 1..Len(order) : order[i] # -e
+          /\ order' = Append(order, -e)
+          /\ UNCHANGED <<n, par, fail, limit, size, big>>
+Next == \E e \in 1..n : Push(e) \/ Ext(e)
 Spec == Init /\ [][Next]_svars
 
-CompleteScen == {order[i] : i \in 1..Len(order)} = 1..n
+CompleteScen == {order[i] : i \in Pushes} = 1..n
 EmitScen == CompleteScen =>
   PrintT(<<"EDGE", ToJson([n |-> n, parents |-> [i \in 1..n |-> SetToSeq(par[i])], order |-> order,
                             fail |-> fail, limit |-> limit, size |-> size,
